@@ -215,6 +215,9 @@ func C12(r *core.Report) {
 					arg := x.Args[0]
 					nd := g.NodeOf(x.Pos())
 					ok, why := bufAtLeast(p, f, g, nd, arg, int64(w))
+					if !ok && selfGuardingDecoder(p, info, x, int64(w)) {
+						ok, why = true, "the helper checks the length of its argument itself before decoding"
+					}
 					key := mk(fmt.Sprintf("%s#%s(%s)", f.Key, nm[strings.LastIndex(nm, ".")+1:], core.KeyStr(f, arg)))
 					report("C12.R3", key, pos(r, x), ok, why, fmt.Sprintf("%s needs %d bytes but the length of %s is not guarded: a short input panics", nm, w, core.ExprStr(arg)), f)
 				}
@@ -1676,4 +1679,41 @@ func sectionRemainderBounded(p *core.Prog, f *core.Func, g *core.Graph, n *core.
 		}
 	}
 	return false
+}
+
+// selfGuardingDecoder: the call runs a repository helper of the fixed-width list that has come to validate its own
+// argument: every fixed-width decode inside the helper that reads its first parameter (directly or through a constant
+// sub-slice of it) is dominated by a length fact of at least w bytes on that parameter.
+func selfGuardingDecoder(p *core.Prog, info *types.Info, c *ast.CallExpr, w int64) bool {
+	fo := core.Callee(info, c)
+	if fo == nil {
+		return false
+	}
+	h := p.ByObj[fo.Origin()]
+	if h == nil || h.Body == nil || h.ParamObj(0) == nil {
+		return false
+	}
+	hi := h.Pkg.TypesInfo
+	hg := p.Graph(h)
+	po := types.Object(h.ParamObj(0))
+	n, okAll := 0, true
+	for _, ic := range core.CallsIn(h.Body, false) {
+		iw := fixedWidth(core.CalleeName(hi, ic))
+		if iw == 0 || len(ic.Args) < 1 {
+			continue
+		}
+		a := core.Unparen(ic.Args[0])
+		if se, isSe := a.(*ast.SliceExpr); isSe {
+			a = core.Unparen(se.X)
+		}
+		if core.ObjOf(hi, a) != po {
+			continue
+		}
+		n++
+		nd := hg.NodeOf(ic.Pos())
+		if nd == nil || minLenFromFacts(hg, hi, nd, ast.NewIdent(po.Name())) < int64(iw) {
+			okAll = false
+		}
+	}
+	return n > 0 && okAll
 }
